@@ -64,6 +64,18 @@ func init() {
 		}
 		return mkStr(bs)
 	}
+	// nd_range(lo, hi): lo + raw % (hi-lo+1) for a fresh byte raw, concretised.
+	h["nd_range"] = func(ex *Exec, fn *ssa.Function, args []Value) Value {
+		lo, hi := args[0].(*Term), args[1].(*Term)
+		if !lo.IsConst() || !hi.IsConst() || hi.Signed() < lo.Signed() {
+			panic(engineErr("nd_range needs concrete lo <= hi"))
+		}
+		n := uint64(hi.Signed()-lo.Signed()) + 1
+		raw := ex.st.ZExt(ex.fresh("u8", 8), 64)
+		v := ex.st.Bin(OpAdd, lo, ex.st.Bin(OpURem, raw, ex.st.Const(64, n)))
+		c := ex.concretize(v, lo.Signed(), hi.Signed(), "nd_range")
+		return ex.st.Const(64, uint64(c))
+	}
 	h["vassume"] = func(ex *Exec, fn *ssa.Function, args []Value) Value {
 		c := args[0].(*Term)
 		if c.IsConst() {
@@ -82,8 +94,14 @@ func init() {
 	}
 	h["vassert"] = func(ex *Exec, fn *ssa.Function, args []Value) Value {
 		msg, _ := args[1].(Str).Concrete()
-		// report at the caller's position
+		// A failed harness assertion ends the path: what follows would only be
+		// explored for the inputs that satisfy it, and reference code past a failed
+		// check tends to run on garbage.
+		n := len(ex.res.Violations)
 		ex.require(args[0].(*Term), "assert", msg)
+		if len(ex.res.Violations) > n {
+			panic(pathEnd{"violated"})
+		}
 		return nil
 	}
 	h["vreach"] = func(ex *Exec, fn *ssa.Function, args []Value) Value {
@@ -431,13 +449,13 @@ func init() {
 			if ex.branch(eq) {
 				return ex.st.True
 			}
-			if m := ex.eng.Prog.LookupMethod(err.T, nil, "Is"); m != nil {
+			if m := ex.findMethod(err.T, "Is"); m != nil {
 				r := ex.callSSA(m, []Value{err.V, target}, nil, ex.curFr).(*Term)
 				if ex.branch(r) {
 					return ex.st.True
 				}
 			}
-			m := ex.eng.Prog.LookupMethod(err.T, nil, "Unwrap")
+			m := ex.findMethod(err.T, "Unwrap")
 			if m == nil {
 				return ex.st.False
 			}
@@ -468,7 +486,7 @@ func init() {
 				ex.store(target.V, err.V)
 				return ex.st.True
 			}
-			m := ex.eng.Prog.LookupMethod(err.T, nil, "Unwrap")
+			m := ex.findMethod(err.T, "Unwrap")
 			if m == nil {
 				return ex.st.False
 			}
@@ -502,19 +520,23 @@ func (ex *Exec) branchAssume(c *Term) bool {
 	return true
 }
 
+// findMethod returns the method called name in T's method set, or nil.
+func (ex *Exec) findMethod(T types.Type, name string) *ssa.Function {
+	ms := ex.eng.Prog.MethodSets.MethodSet(T)
+	for i := 0; i < ms.Len(); i++ {
+		if ms.At(i).Obj().Name() == name {
+			return ex.eng.Prog.MethodValue(ms.At(i))
+		}
+	}
+	return nil
+}
+
 // invoke calls method name on an interface value.
 func (ex *Exec) invoke(recv Iface, name string, args []Value) Value {
 	if recv.T == nil {
 		ex.require(ex.st.False, "nil", "method "+name+" on nil interface")
 	}
-	var pkg *types.Package
-	ms := ex.eng.Prog.MethodSets.MethodSet(recv.T)
-	for i := 0; i < ms.Len(); i++ {
-		if ms.At(i).Obj().Name() == name {
-			pkg = ms.At(i).Obj().Pkg()
-		}
-	}
-	f := ex.eng.Prog.LookupMethod(recv.T, pkg, name)
+	f := ex.findMethod(recv.T, name)
 	if f == nil {
 		panic(engineErr("invoke: no method %s on %v", name, recv.T))
 	}
@@ -545,13 +567,13 @@ func (ex *Exec) argStr(verb byte, v Value) Str {
 		}
 		// error / Stringer
 		if verb != 'd' && verb != 'x' && verb != 'o' {
-			if m := ex.eng.Prog.LookupMethod(x.T, nil, "Error"); m != nil && m.Signature.Params().Len() == 0 {
+			if m := ex.findMethod(x.T, "Error"); m != nil && m.Signature.Params().Len() == 0 {
 				if p, isPtr := x.V.(Ptr); !isPtr || p.P != nil {
 					return ex.callSSA(m, []Value{x.V}, nil, ex.curFr).(Str)
 				}
 			}
 			if _, isBasic := x.T.Underlying().(*types.Basic); !isBasic {
-				if m := ex.eng.Prog.LookupMethod(x.T, nil, "String"); m != nil && m.Signature.Params().Len() == 0 && m.Blocks != nil {
+				if m := ex.findMethod(x.T, "String"); m != nil && m.Signature.Params().Len() == 0 && m.Blocks != nil {
 					if p, isPtr := x.V.(Ptr); !isPtr || p.P != nil {
 						func() {
 							defer func() {
